@@ -211,7 +211,7 @@ func HarnessC13Conc() {
 // HarnessC12Conc: two concurrent requests each see their own data.
 func HarnessC12Conc(st any) {
 	s := st.(*c12State)
-	sym.Threads(2)
+	sym.ThreadsPool(2)
 	ok1, ok2 := true, true
 	s.behave = func(c fox.Context) {
 		id := c.Param("id")
